@@ -19,6 +19,8 @@ TRUSTED = ['Model/ContainerV3 + Model/Construct + Model/Reader as models of pars
            'plistlib.loads is opaque: the model gets, per payload, whether it loads and the keys the container parser reads '
            '(Binaries ids, Events with cm/tid/p/pid, StringIndex items); OsLogEvent decoding is compared only on '
            '(index, thread id, process, pid, composed message) — the record model belongs to C16']
+from .. import rdir as _rdir  # noqa: E402
+TRUSTED = TRUSTED + [_rdir.TRUSTED]
 ASSUMPTIONS = ['bytes objects hold values 0..255',
                '"the dump\'s string index" is read as: the LAST log-strings block (the code overwrites log_strings per block); '
                'an assumption of the specification, not a finding',
@@ -256,6 +258,8 @@ def oracle_api(c, got):
 
 
 def correspondence(rep, rng, tier):
+    from .. import rdir
+    rdir.enable(rep)
     quick = tier == 'quick'
     from .. import pipeline as _PL
     _PL.section_e2e(rep, rng, tier, n=(150 if quick else 3000), plain=0.7, only_v3=True)
@@ -353,9 +357,11 @@ LEVEL_TEXT = ('Lean theorems over the reader/construct model of parse_v3 against
               'independent of chunking / filler / header / blocks), e2e_lines_v3_eq_v2 (same lines as the v2 file with that thread '
               'map and those records); the model is tied to the code by differential runs on generated dumps with real binary '
               'plists incl. all parser attributes, parse sequences, the public kevents/os_log_events entry points, and '
-              'formatted_traces on version-3 dumps (section end-to-end, incl. blocks that raise behind the last chunk and cuts).')
+              'formatted_traces on version-3 dumps (section end-to-end, incl. blocks that raise behind the last chunk and cuts).'
+              " TRANSLATION TIE: the source text of parse / parse_v2 / parse_v3 (to the end of its chunk loop) / seek_until / set_thread_map is translated on every run (tools/gen_pyir_rd.py, pure ast) into the Python-subset IR of Model/PyIRRd (statements over the model's reader: read, while/for/break/raise/yield, bytes slices and comparisons, construct parsers as primitives; big-step interpreter); source_is_expected_ir: the generated program is the one of Spec/PyIRRdExpected; parse_is_interpreted_source: for EVERY byte string and prior state the model's parse IS that program run by the interpreter (+ the hand-modelled tail of parse_v3), with the same read calls; per piece: seek_until_ir_eq_model, parse_v3_ir_eq_model.")
 LEVEL_NOTE = ('plistlib.loads and OsLogEvent decoding are opaque parameters of the model (BlockOk / LogsResolve state what must load); '
               '"the dump\'s string index" = the LAST string block (assumption of the specification). Trusted: Lean kernel, '
               'Model/Construct + Model/Reader as models of construct/BytesIO (diffed, not verified), Spec.encodeV3 as the meaning of '
-              '"version-3 dump".')
-TECHNIQUE = 'Lean 4 proof (parser/encoder round trip) + differential correspondence'
+              '"version-3 dump".'
+              ' The hand model of the readers is no longer trusted by itself: it is proved equal to the interpreted source (trusted instead: translator tools/gen_pyir_rd.py and interpreter Model/PyIRRd, both tested against CPython by the sections *-ir; the construct parsers as primitives; the tail of parse_v3).')
+TECHNIQUE = 'Lean 4 proof (parser/encoder round trip) + differential correspondence + translation validation (source text -> IR, proved equal to the model)'
